@@ -143,6 +143,9 @@ var active *Cluster
 func (c *Cluster) count(k string) { c.Stats[k]++ }
 func (c *Cluster) Count(k string) { c.Stats[k]++ }
 
+// Account derives fixed key material.
+func Account(seed uint64, idx int, role string) common.Address { return deterministicAccount(seed, idx, role) }
+
 func deterministicAccount(seed uint64, idx int, role string) common.Address {
 	s := make([]byte, 64)
 	copy(s, []byte(fmt.Sprintf("SIM#%s#%d#%d", role, seed, idx)))
@@ -156,6 +159,33 @@ func deterministicAccount(seed uint64, idx int, role string) common.Address {
 
 func init() {
 	logger.SetLevel(0)
+}
+
+// BuildGenesis renders and parses a genesis document for the given keys.
+func BuildGenesis(signers, payees, custodians []common.Address, domain common.Address, epoch int64) (*common.Genesis, []byte, error) {
+	inputs := make([]map[string]string, 0)
+	for i := range signers {
+		inputs = append(inputs, map[string]string{
+			"signer":    signers[i].String(),
+			"payee":     payees[i].String(),
+			"custodian": custodians[i].String(),
+			"balance":   "13439",
+		})
+	}
+	genesis := map[string]any{
+		"epoch":     epoch,
+		"nodes":     inputs,
+		"custodian": domain.String(),
+	}
+	data, err := json.MarshalIndent(genesis, "", "  ")
+	if err != nil {
+		return nil, nil, err
+	}
+	var gns common.Genesis
+	if err := json.Unmarshal(data, &gns); err != nil {
+		return nil, nil, err
+	}
+	return &gns, data, nil
 }
 
 // New builds the genesis, the key material and the (not yet started) nodes.
@@ -189,30 +219,12 @@ func New(cfg Config) (*Cluster, error) {
 	}
 	c.Domain = deterministicAccount(keySeed, 0, "DOMAIN")
 
-	inputs := make([]map[string]string, 0)
-	for i := 0; i < cfg.Nodes; i++ {
-		inputs = append(inputs, map[string]string{
-			"signer":    c.Signers[i].String(),
-			"payee":     c.Payees[i].String(),
-			"custodian": c.Custodians[i].String(),
-			"balance":   "13439",
-		})
-	}
-	genesis := map[string]any{
-		"epoch":     GenesisEpoch - cfg.EpochShift,
-		"nodes":     inputs,
-		"custodian": c.Domain.String(),
-	}
-	data, err := json.MarshalIndent(genesis, "", "  ")
+	gns, data, err := BuildGenesis(c.Signers[:cfg.Nodes], c.Payees[:cfg.Nodes], c.Custodians[:cfg.Nodes], c.Domain, GenesisEpoch-cfg.EpochShift)
 	if err != nil {
 		return nil, err
 	}
 	c.GnsData = data
-	var gns common.Genesis
-	if err := json.Unmarshal(data, &gns); err != nil {
-		return nil, err
-	}
-	c.Gns = &gns
+	c.Gns = gns
 	c.NetworkId = gns.NetworkId()
 	c.Epoch = time.Unix(gns.Epoch, 0)
 	c.Start = c.Epoch.Add(cfg.StartOffset)
